@@ -373,6 +373,52 @@ func min(a, b int) int {
 	return b
 }
 
+// rowsFromUniqueName: in every row of the literal table (a slice or array of structs) the value of the
+// named field is derived from uniqueName.
+func rowsFromUniqueName(info *types.Info, fd *ast.FuncDecl, table *ast.CompositeLit, field string) bool {
+	var st *types.Struct
+	if t := info.TypeOf(table); t != nil {
+		switch u := t.Underlying().(type) {
+		case *types.Slice:
+			st, _ = u.Elem().Underlying().(*types.Struct)
+		case *types.Array:
+			st, _ = u.Elem().Underlying().(*types.Struct)
+		}
+	}
+	if st == nil || len(table.Elts) == 0 {
+		return false
+	}
+	fi := -1
+	for i := 0; i < st.NumFields(); i++ {
+		if st.Field(i).Name() == field {
+			fi = i
+		}
+	}
+	if fi < 0 {
+		return false
+	}
+	for _, row := range table.Elts {
+		rl, ok := ast.Unparen(row).(*ast.CompositeLit)
+		if !ok {
+			return false
+		}
+		var val ast.Expr
+		for i, el := range rl.Elts {
+			if kv, ok := el.(*ast.KeyValueExpr); ok {
+				if kid, ok := kv.Key.(*ast.Ident); ok && kid.Name == field {
+					val = kv.Value
+				}
+			} else if i == fi {
+				val = el
+			}
+		}
+		if val == nil || !fromUniqueName(info, fd, val) {
+			return false
+		}
+	}
+	return true
+}
+
 type uniqueArg struct {
 	info *types.Info
 	fd   *ast.FuncDecl
@@ -455,6 +501,7 @@ func fromUniqueName(info *types.Info, fd *ast.FuncDecl, e ast.Expr) bool {
 			return false
 		}
 		var table *ast.CompositeLit
+		var tables []*ast.CompositeLit
 		ast.Inspect(fd, func(n ast.Node) bool {
 			rs, ok := n.(*ast.RangeStmt)
 			if !ok || rs.Value == nil {
@@ -464,51 +511,44 @@ func fromUniqueName(info *types.Info, fd *ast.FuncDecl, e ast.Expr) bool {
 				if cl, ok := ast.Unparen(rs.X).(*ast.CompositeLit); ok {
 					table = cl
 				}
+				// a local that only ever holds literal tables: each of them
+				if tid, ok := ast.Unparen(rs.X).(*ast.Ident); ok {
+					tv := info.ObjectOf(tid)
+					okAll, n := true, 0
+					ast.Inspect(fd, func(m ast.Node) bool {
+						if as, ok := m.(*ast.AssignStmt); ok && len(as.Lhs) == len(as.Rhs) {
+							for i, l := range as.Lhs {
+								if lid, ok := ast.Unparen(l).(*ast.Ident); ok && info.ObjectOf(lid) == tv {
+									n++
+									if cl, ok := ast.Unparen(as.Rhs[i]).(*ast.CompositeLit); ok {
+										tables = append(tables, cl)
+									} else {
+										okAll = false
+									}
+								}
+							}
+						}
+						return true
+					})
+					if !okAll || n == 0 {
+						tables = nil
+					}
+				}
 			}
 			return true
 		})
+		if table == nil && len(tables) > 0 {
+			for _, tb := range tables[1:] {
+				if !rowsFromUniqueName(info, fd, tb, sel.Sel.Name) {
+					return false
+				}
+			}
+			table = tables[0]
+		}
 		if table == nil {
 			return false
 		}
-		var st *types.Struct
-		switch t := info.TypeOf(table).Underlying().(type) {
-		case *types.Slice:
-			st, _ = t.Elem().Underlying().(*types.Struct)
-		case *types.Array:
-			st, _ = t.Elem().Underlying().(*types.Struct)
-		}
-		if st == nil || len(table.Elts) == 0 {
-			return false
-		}
-		fi := -1
-		for i := 0; i < st.NumFields(); i++ {
-			if st.Field(i).Name() == sel.Sel.Name {
-				fi = i
-			}
-		}
-		if fi < 0 {
-			return false
-		}
-		for _, row := range table.Elts {
-			rl, ok := ast.Unparen(row).(*ast.CompositeLit)
-			if !ok {
-				return false
-			}
-			var val ast.Expr
-			for i, el := range rl.Elts {
-				if kv, ok := el.(*ast.KeyValueExpr); ok {
-					if kid, ok := kv.Key.(*ast.Ident); ok && kid.Name == sel.Sel.Name {
-						val = kv.Value
-					}
-				} else if i == fi {
-					val = el
-				}
-			}
-			if val == nil || !fromUniqueName(info, fd, val) {
-				return false
-			}
-		}
-		return true
+		return rowsFromUniqueName(info, fd, table, sel.Sel.Name)
 	}
 	id, ok := e.(*ast.Ident)
 	if !ok {
